@@ -25,6 +25,9 @@ variable- or fixed-size binary/string value is a byte string -/
 inductive Scalar
   | int (i : Int)
   | bytes (b : List UInt8)
+  /-- a value with several signed integer components, most significant first
+  (IntervalDayTime = (days, milliseconds), IntervalMonthDayNano = (months, days, nanoseconds)) -/
+  | ints (is : List Int)
   deriving DecidableEq, Repr
 
 /-- field types without children (`w` = width in bytes) -/
@@ -34,10 +37,19 @@ inductive FTy
   | bool
   | bin
   | fsb (n : Nat)
+  /-- product of signed integer components of the given widths (bytes), most significant first -/
+  | prod (ws : List Nat)
   deriving DecidableEq, Repr
 
 /-- a logical field value; `none` is SQL NULL -/
 abbrev FVal := Option Scalar
+
+/-- every component is a signed integer of its width -/
+def admitsComps : List Nat → List Int → Bool
+  | [], [] => true
+  | w :: ws, i :: is =>
+    (decide (-(2 ^ (8 * w - 1) : Int) ≤ i ∧ i < 2 ^ (8 * w - 1)) && decide (0 < w)) && admitsComps ws is
+  | _, _ => false
 
 /-- the value lies in the domain of the field type -/
 def FTy.admits : FTy → FVal → Bool
@@ -48,6 +60,7 @@ def FTy.admits : FTy → FVal → Bool
   | .bool, some (.int i) => decide (i = 0 ∨ i = 1)
   | .bin, some (.bytes _) => true
   | .fsb n, some (.bytes b) => decide (b.length = n)
+  | .prod ws, some (.ints is) => admitsComps ws is
   | _, _ => false
 
 /-- IEEE-754 `totalOrder` key of an `n`-bit pattern: sign-magnitude value, with `-0 < +0`
@@ -56,22 +69,6 @@ def floatKey (n : Nat) (bits : Int) : Int :=
   if bits < 2 ^ (n - 1) then bits else 2 ^ (n - 1) - 1 - bits
 
 def compareInt (a b : Int) : Ordering := if a < b then .lt else if b < a then .gt else .eq
-
-/-- order of two non-null values of a field type (ascending) -/
-def compareScalar : FTy → Scalar → Scalar → Ordering
-  | .float w, .int a, .int b => compareInt (floatKey (8 * w) a) (floatKey (8 * w) b)
-  | _, .int a, .int b => compareInt a b
-  | _, .bytes a, .bytes b => compareBytes a b
-  | _, .int _, .bytes _ => .lt
-  | _, .bytes _, .int _ => .gt
-
-/-- order of two nullable values under `SortOptions`: nulls first or last regardless of
-`descending`; non-null values in reverse order when `descending` -/
-def compareVal {α} (o : SortOptions) (cmp : α → α → Ordering) : Option α → Option α → Ordering
-  | none, none => .eq
-  | none, some _ => if o.nullsFirst then .lt else .gt
-  | some _, none => if o.nullsFirst then .gt else .lt
-  | some a, some b => if o.descending then (cmp a b).swap else cmp a b
 
 /-- lexicographic comparison of two lists under an element comparison; a proper prefix is
 smaller (the order of list values) -/
@@ -83,6 +80,25 @@ def lexCompare {α} (cmp : α → α → Ordering) : List α → List α → Ord
 
 /-- reverse an ordering when `descending` -/
 def swapIf (d : Bool) (r : Ordering) : Ordering := if d then r.swap else r
+
+/-- order of two non-null values of a field type (ascending); multi-component values
+(intervals) compare component-wise, lexicographically, each component as a signed integer -/
+def compareScalar : FTy → Scalar → Scalar → Ordering
+  | .float w, .int a, .int b => compareInt (floatKey (8 * w) a) (floatKey (8 * w) b)
+  | _, .int a, .int b => compareInt a b
+  | _, .bytes a, .bytes b => compareBytes a b
+  | _, .ints a, .ints b => lexCompare compareInt a b
+  | _, .int _, .bytes _ => .lt
+  | _, .bytes _, .int _ => .gt
+  | _, _, _ => .eq
+
+/-- order of two nullable values under `SortOptions`: nulls first or last regardless of
+`descending`; non-null values in reverse order when `descending` -/
+def compareVal {α} (o : SortOptions) (cmp : α → α → Ordering) : Option α → Option α → Ordering
+  | none, none => .eq
+  | none, some _ => if o.nullsFirst then .lt else .gt
+  | some _, none => if o.nullsFirst then .gt else .lt
+  | some a, some b => if o.descending then (cmp a b).swap else cmp a b
 
 def compareField (o : SortOptions) (t : FTy) (a b : FVal) : Ordering :=
   compareVal o (compareScalar t) a b
